@@ -473,7 +473,7 @@ def observe_nl(p, pd, req, kw):
     nx, ny = gauss_orders(pd, req)
     # the buckling analysis derives everything itself: asked directly (no stiffness call before it) when no table is passed
     direct = bool(q == "kGc" and req.get("vialb") and not req["NL"] and not kw and not req.get("table")
-                  and not req.get("taper") and not req.get("dflt"))
+                  and not req.get("taper"))
     F0 = None
     if not direct:
         p.calc_k0(silent=True)                # documented order: derives the laminate matrix F
@@ -499,7 +499,7 @@ def observe_nl(p, pd, req, kw):
     elif q == "kT":
         M = p.calc_kT(c=c, nx=nx, ny=ny, Fnxny=Fn, silent=True, **k2)
         out = [[dyadic(v) for v in row] for row in M.toarray()]
-    elif req.get("vialb") and not req["NL"] and not k2 and nx is not None:
+    elif req.get("vialb") and not req["NL"] and not k2:
         # the documented route of the state-based matrix: Panel.lb(c=..., nx, ny, Fnxny) feeds them into calc_kG0
         try:
             p.lb(c=c, nx=nx, ny=ny, Fnxny=Fn, sparse_solver=False, silent=True)
@@ -721,7 +721,7 @@ def random_req(rng, pd, q):
             src = rng.choice(allf)
             again = [src[0], src[1]] + [rat(Fraction(rng.randint(-24, 24), 8)) for _ in range(3)]
             (r["forcesInc"] if rng.random() < 0.5 else r["forces"]).append(again)
-        r["inc"] = rat(Fraction(rng.randint(1, 16), 8)) if q == "fext" else rat(1)
+        r["inc"] = rat(Fraction(rng.choice([0, 0] + list(range(1, 17))), 8)) if q == "fext" else rat(1)
         r["route"] = rng.randint(0, 5)
         r["rows"] = rng.choice(["list", "ndarray", "tuple"])
         if rng.random() < 0.5:
@@ -845,7 +845,7 @@ def run_prop(prop, qs, tier, seed, build, nrand_quick=40, nrand_thorough=600, wh
                 r["nofin"] = True
             if r.get("lbstudy"):
                 r["sweep"] = r.pop("lbstudy")
-                r["extra"], r["dflt"], r["vialb"], r["study"] = [k % 2, 1], False, True, True
+                r["extra"], r["dflt"], r["vialb"], r["study"] = [k % 2, 1], (k % 4 < 2), True, True
             elif r["q"] in ("fint", "kT", "kGc"):
                 r["extra"] = [k % 3, 3 + (k % 2)]          # different orders along x and y
                 r["dflt"] = (k % 2 == 0)
@@ -888,6 +888,8 @@ def run_prop(prop, qs, tier, seed, build, nrand_quick=40, nrand_thorough=600, wh
                               % (q, type(ex).__name__, str(ex)[:200]), dict(q=q))
     for (pd, r, obs, ok) in extra_observed:      # already observed by the caller (e.g. through an assembly)
         g = [dict(ev="define", id=eid, pd=pd), dict(ev="eval", id=eid + 1, req=r, obs=obs, flags_ok=ok)]
+        if r.get("num") or r["q"] in ("fint", "kT", "kGc"):
+            g[1]["tol"] = 34          # Gauss-quadrature sums
         meta[eid + 1] = (pd, r)
         eid += 2
         groups.append(g)
